@@ -1,14 +1,13 @@
 /-
-  C13: tie to the source TEXT.  `Generated.src_get_regions_step` / `_final` and `Generated.src_join_regions_step`
-  / `_final` / `_min_gap` are re-translated from the bodies of `cnvlib/access.py:get_regions` and `join_regions`
-  on every run (harness/looptrans.py, reading rules at its top; library calls read as Model/PyPrims.lean).  These
-  theorems state that the hand-written scanner and join models ARE those loops.  Kept in a module of their own so
+  C13: tie to the source TEXT.  `Generated.src_get_regions_step` / `_final` are re-translated from the body of
+  `cnvlib/access.py:get_regions` on every run (harness/looptrans.py, reading rules at its top; library calls read as Model/PyPrims.lean).  These
+  theorems state that the hand-written scanner model IS that loop.  Kept in a module of their own so
   that an edit to a branch, an index, a comparison or an update of the loops breaks exactly these obligations.
 
   Vocabulary.  `Py.genLoop step final init xs`: what a generator `for x in xs: <step>` + `<final>` yields.
   `Src.stepFn` / `Src.finalFn`: the generated loop body / flush of `get_regions` as functions of the loop-carried
   triple (`chrom`, `cursor`, `run_start`).  `Src.tag c r = (c, r.1, r.2)`, `Src.toRegion` turns the name into a
-  `String`, `Src.triple r = (r.chrom, r.s, r.e)`.
+  `String`, (`join_regions` has its own module, Props/C13SrcJoin.lean.)
 -/
 import CnvVerif.Props.C13
 import CnvVerif.Lemmas.SrcAccess
@@ -53,21 +52,6 @@ theorem scan_loop_is_the_source (c : List Char) (st : Scan) (ls : List (List Cha
       .ok ((Py.genLoop Src.stepFn Src.finalFn (c, st.cursor, st.runStart) ls).map Src.toRegion) :=
   Src.scanFile_is_source c st ls
 
-/-- `join_regions` on one chromosome: the model's `joinGo` IS the source's `for start, end in coords:` loop
-    (`gap = start - prev_end`, `gap < min_gap_size` joins, otherwise the previous region is emitted) followed by
-    the source's final `yield` -/
-theorem join_loop_is_the_source (g : Int) (prev : Row) (l : List Row)
-    (hc : ∀ r ∈ l, r.chrom = prev.chrom) :
-    (joinGo g prev l).map Src.triple =
-      Py.genLoop (fun st x => src_join_regions_step g prev.chrom st.1 st.2 x.1 x.2)
-        (fun st => src_join_regions_final g prev.chrom st.1 st.2) (prev.s, prev.e)
-        (l.map (fun r => (r.s, r.e))) :=
-  Src.joinGo_is_source g prev l hc
-
-/-- `min_gap_size or 0`: `None` and `0` both mean "join nothing" -/
-theorem join_min_gap_is_the_source (m : Option Int) : m.getD 0 = src_join_regions_min_gap m :=
-  Src.min_gap_is_source m
-
 /-! ### non-vacuity: the generated loop, run by the kernel on a concrete file -/
 
 example : (Py.genLoop Src.stepFn Src.finalFn ([], 0, none)
@@ -77,9 +61,5 @@ example : (Py.genLoop Src.stepFn Src.finalFn ([], 0, none)
 
 example : ∀ l, ([">c1 x\n".toList, "ACN\n".toList] : List (List Char)).head? = some l → l.head? = some '>' := by
   intro l hl; simp at hl; subst hl; rfl
-
-example : Py.genLoop (fun st x => src_join_regions_step 3 "chr1" st.1 st.2 x.1 x.2)
-      (fun st => src_join_regions_final 3 "chr1" st.1 st.2) ((0 : Int), (4 : Int)) [(6, 9), (12, 20)] =
-    [("chr1", 0, 9), ("chr1", 12, 20)] := by decide
 
 end CnvVerif.C13
